@@ -639,6 +639,12 @@ def pos(n: ast.AST) -> int:
 def as_expression(fn: ast.FunctionDef) -> Optional[ast.expr]:
     """The value a function returns, as one expression: straight-line local assignments are substituted and
     `if c: return a` … `return b` becomes `a if c else b`.  None when the body has any other shape."""
+    if any(isinstance(n, ast.Assign) and len(n.targets) == 1 and isinstance(n.targets[0], (ast.Tuple, ast.List)) for n in ast.walk(fn)):
+        try:
+            fn = split_tuple_assigns(fn)        # `head, _, _ = data.partition(sep)` as single-target assignments
+        except Exception:
+            pass
+
     def subst(e: ast.expr, env: Dict[str, ast.expr]) -> ast.expr:
         return _Rename(dict(env)).visit(copy.deepcopy(e)) if env else copy.deepcopy(e)
 
@@ -1305,6 +1311,8 @@ def normalize(repo: Repo, ci: Optional[ClassInfo], fn: ast.FunctionDef, sf: Opti
     if any(isinstance(n, ast.Assign) and len(n.targets) == 1 and (
             (isinstance(n.targets[0], (ast.Tuple, ast.List)) and (isinstance(n.value, (ast.Tuple, ast.List))
                                                                   or (isinstance(n.value, ast.Call) and norm(n.value.func) == "divmod")))
+            or (isinstance(n.targets[0], (ast.Tuple, ast.List)) and isinstance(n.value, ast.Call) and isinstance(n.value.func, ast.Attribute)
+                and n.value.func.attr in ("partition", "rpartition"))
             or (isinstance(n.targets[0], ast.Name) and isinstance(n.value, ast.Tuple))) for n in ast.walk(out)):
         out = split_tuple_assigns(out)
     if any(isinstance(n, ast.Attribute) and n.attr in ("pack", "unpack", "unpack_from", "size") for n in ast.walk(out)) or \
@@ -1739,6 +1747,16 @@ def split_tuple_assigns(fn: ast.FunctionDef) -> ast.FunctionDef:
                             setattr(a, k, val)
                     out.append(a)
                 return out
+            # head, _, _ = data.partition(sep)   reads as   head = data.partition(sep)[0]   (names that are never read are dropped)
+            if len(node.targets) == 1 and isinstance(node.targets[0], (ast.Tuple, ast.List)) and len(node.targets[0].elts) == 3 \
+                    and isinstance(node.value, ast.Call) and isinstance(node.value.func, ast.Attribute) and node.value.func.attr in ("partition", "rpartition") \
+                    and isinstance(node.value.func.value, (ast.Name, ast.Attribute)) and all(isinstance(t, ast.Name) for t in node.targets[0].elts):
+                out = []
+                for i, t in enumerate(node.targets[0].elts):
+                    if t.id in read_names:
+                        v = ast.Subscript(value=copy.deepcopy(node.value), slice=ast.Constant(value=i), ctx=ast.Load())
+                        out.append(ast.copy_location(ast.Assign(targets=[ast.Name(id=t.id, ctx=ast.Store())], value=v), node))
+                return out or [ast.copy_location(ast.Expr(value=node.value), node)]
             # pair = a, b  with `pair` only ever read as pair[0] / pair[1]:   pair__0 = a; pair__1 = b
             if len(node.targets) == 1 and isinstance(node.targets[0], ast.Name) and isinstance(node.value, ast.Tuple) \
                     and node.targets[0].id in indexed_only and not any(isinstance(x, ast.Starred) for x in node.value.elts) \
@@ -1786,6 +1804,7 @@ def split_tuple_assigns(fn: ast.FunctionDef) -> ast.FunctionDef:
     tuple_defs = {n.targets[0].id for n in ast.walk(new) if isinstance(n, ast.Assign) and len(n.targets) == 1 and isinstance(n.targets[0], ast.Name)
                   and isinstance(n.value, ast.Tuple)}
     params_ = {a.arg for a in new.args.args + new.args.kwonlyargs}
+    read_names = {n.id for n in ast.walk(new) if isinstance(n, ast.Name) and isinstance(n.ctx, ast.Load)}
     indexed_only: Dict[str, int] = {k: max(v) for k, v in sub_loads.items() if k in tuple_defs and stores.get(k) == 1 and k not in plain_loads and k not in params_}
     X().visit(new)
     ast.fix_missing_locations(new)
